@@ -2,8 +2,9 @@
 UNIT_KIND = {'U-DIG': 'kani'}  # default 'verus'
 
 PROPS = {
-    'C07': {'units': ['U-VT', 'U-RES', 'U-FCALL'],
-            'assumptions': ['the typer (unification put_symbol/do_update_symbol, insertion of Autocoerce nodes) is not under contract', 'function_calls.rs preconditions: every non-builtin callee is declared (else unreachable!), no builtin is IncludeBytes (todo!(): D16), see U-FCALL evidence'],
+    'C07': {'units': ['U-VT', 'U-RES', 'U-FCALL', 'U-SYM'],
+            'assumptions': ['the typer\'s symbol table (put_symbol/do_update_symbol/get_symbol/poisoning) is under contract (U-SYM: a recorded type is only ever refined, never converted; a mismatch is E500 and leaves the table unchanged); the callers of put_symbol (the Typed impls: which type each expression puts), get_type_of_reference and the insertion of Autocoerce nodes are not under contract',
+                            'U-SYM: both types handed to do_update_symbol are well formed (the two assert!s, kept as preconditions); retrieve_named_length is only asked about a declared constant (unreachable!()); trusted HashMap::get_mut specification (prelude/sym_std.rs)', 'function_calls.rs preconditions: every non-builtin callee is declared (else unreachable!), no builtin is IncludeBytes (todo!(): D16), see U-FCALL evidence'],
             'trusted': []},
     'C04': {'units': ['U-LABEL'],
             'assumptions': ['fewer than 2^32 labels per program (precondition of analyze)',
@@ -62,8 +63,10 @@ LEVELS = {'C07': {'text': 'PARTIAL: proof (Verus, unbounded over all value types
                  'exactly the documented array/struct-to-view/slice coercions, autoderef never changes the underlying element type. resolver.rs operator rules: each unary/binary/comparison operator is accepted exactly '
                  'on its documented operand class with identical operand types, else E550/E551/E581; bit cast only pointer-to-pointer/primitive-to-primitive (E553). function_calls.rs (whole tree walk): a call is '
                  "accepted iff the argument count equals the parameter count and every argument type is identical to the parameter type, else E510/E511 or E512/E513 at the first mismatch, checked against the callee's "
-                 'declaration. The typer (unification, insertion of Autocoerce nodes) is NOT under contract.',
-         'note': 'trusted: Verus+Z3, slicer/splicer, rules R1/R3/R13/R20/R25, unit rules RES1/RES2/FC1/FC2, derived PartialEq/Clone structural (assumed specs), vstd HashMap model, Box::as_ref / Option::map_or specs; '
+                 'declaration. typer.rs symbol table (U-SYM: do_update_symbol, put_symbol, poison_symbol, get_symbol, named lengths): the type recorded for a symbol is only ever kept or refined '
+                 '(concretisation, or the documented coercion when the declaration is put), never converted - a scalar on either side forces identical types and the primitive at the bottom of any array/pointer spine is preserved; '
+                 'anything else is E500 with the table unchanged; poison is sticky for typed puts. The Typed impls that call put_symbol and the insertion of Autocoerce nodes are NOT under contract.',
+         'note': 'trusted: Verus+Z3, slicer/splicer, rules R1/R3/R13/R20/R25, unit rules RES1/RES2/FC1/FC2, derived PartialEq/Clone structural (assumed specs), vstd HashMap model, HashMap::get_mut specification (prelude/sym_std.rs), Box::as_ref / Option::map_or specs; '
                  'preconditions callee_declared / builtin_is_implemented (D16) are obligations on earlier stages, not verified'},
  'C04': {'text': 'Proof (Verus, unbounded over all statement trees and all programs): every function of label_references.rs verified against an abstract label-stack semantics; '
                  'Statement/Block/FunctionBody/Declaration/analyze results equal the oracle (goto resolves iff a label of that name is visible, else E400 variant; label accepted iff name not visible, else E420 '
